@@ -314,6 +314,13 @@ mutant("c19-constructor-reseeds-global-random", "C19", "cvss/cvss4.py",
        "        self.vector = vector\n        self.metrics = {}\n        self.missing_metrics = []\n\n        self.base_score = None\n        self.severity = None",
        "        __import__('random').seed(len(vector))\n        self.vector = vector\n        self.metrics = {}\n        self.missing_metrics = []\n\n        self.base_score = None\n        self.severity = None",
        "the caller's global random generator is re-seeded by a constructor")
+mutant("c19-v2-memo-torn-by-race-shows-in-next-call", "C19", edits=[
+    ("cvss/cvss2.py", "def round_to_1_decimal(value):",
+     "_memo = {}\n_scratch = None\n\n\ndef round_to_1_decimal(value):"),
+    ("cvss/cvss2.py",
+     "        self.parse_vector()\n        self.check_mandatory()\n        self.compute_base_score()",
+     "        global _memo, _scratch\n        hit = _memo.get(vector)\n        if hit is not None:\n            self.metrics = dict(hit)\n        else:\n            self.parse_vector()\n            _scratch = dict(self.metrics)\n            _memo = {vector: _scratch}\n        self.check_mandatory()\n        self.compute_base_score()"),
+], note="one-entry memo written in two steps through a module-level scratch name: a construction pre-empted between the two steps by another complete construction returns the right object, and so does the other; the memo is left as (W, metrics of X) and only the NEXT construction of W is wrong")
 mutant("c19-prec-lowered-at-import", "C19", "cvss/cvss3.py",
        "def round_up(value):", "__import__('decimal').getcontext().prec = 12\n\n\ndef round_up(value):",
        "import-time change of the importing thread's decimal context")
